@@ -136,10 +136,28 @@ Proof.
             (VStruct [("Definition", op_def [("ENRSignature", VBytes sig65)])]).
 Qed.
 
+(* Up to v1.4 the single (fee recipient, withdrawal) address pair is hashed by PutBytes calls that
+   append nothing for an empty address: a definition with only a fee recipient address A and one
+   with only a withdrawal address A have the same config hash (hence the same EIP-712 signatures),
+   definition hash and lock hash.  For v1.3/v1.4 this is outside the declared domain (20-byte
+   addresses) of the config-hash theorem; the code accepts it (harness finding legacy-address-shift). *)
+Definition addrA : list N := 48 :: 120 :: repeat 49 40.      (* "0x1111...11" *)
+Definition addr_def (fee wd : list N) : value :=
+  VStruct [("ValidatorAddresses", VList [VStruct [("FeeRecipientAddress", VBytes fee); ("WithdrawalAddress", VBytes wd)]])].
+
+Lemma address_shift_collision :
+  collides prog_config_v1_3 /\ collides prog_def_v1_3 /\ collides prog_config_v1_4 /\ collides prog_def_v1_4 /\
+  collides prog_config_v1_0 /\ collides prog_config_v1_1 /\ collides prog_config_v1_2 /\
+  dom prog_config_v1_3 (addr_def addrA []) = false.
+Proof.
+  do 7 (split; [collide (addr_def addrA []) (addr_def [] addrA)|]).
+  vm_compute. reflexivity.
+Qed.
+
 (* The domain restriction of the well-formed lock programs is needed: hashRegistration puts the
    registration's fee recipient in with a bare PutBytes, so a 21-byte value ending in 00 (outside
    the declared Bytes20) has the root of the 20-byte one.  Nothing else in lock verification looks
-   at that field's length (finding F12 of the harness). *)
+   at that field's length (harness finding registration-fee-recipient-padding). *)
 Definition reg_lock (fee : list N) : value :=
   VStruct [("Definition", VStruct [("ConfigHash", VBytes (repeat 0 32))]); ("Validators", VList [VStruct [("BuilderRegistration",
     VStruct [("Message", VStruct [("FeeRecipient", VBytes fee)])])]])].
@@ -153,3 +171,18 @@ Proof.
   do 5 (split; [collide (reg_lock (repeat 9 20)) (reg_lock (repeat 9 20 ++ [0]))|]).
   split; vm_compute; reflexivity.
 Qed.
+
+(* What the canonical observation of an address (putHexBytes20, from v1.5) cannot tell apart, i.e.
+   what the tamper-evidence theorems do NOT promise: the empty string is hashed as 20 zero bytes, so
+   "" and the zero address are one value (harness finding empty-address-equals-zero-address); so are
+   the upper-/lower-case spellings and the spelling without "0x" (enumerated exception
+   address-spelling of the harness). *)
+Definition addr_env (s : list N) : value := VStruct [("a", VBytes s)].
+Definition zero_address_ascii : list N := 48 :: 120 :: repeat 48 40.            (* "0x00...00" *)
+
+Lemma address_canonical_gaps :
+  fields (PutHex20 ["a"]) (addr_env []) = fields (PutHex20 ["a"]) (addr_env zero_address_ascii) /\
+  (forall H Z, interp H Z (PutHex20 ["a"]) (addr_env []) = interp H Z (PutHex20 ["a"]) (addr_env zero_address_ascii)) /\
+  fields (PutHex20 ["a"]) (addr_env (48 :: 120 :: repeat 97 40)) = fields (PutHex20 ["a"]) (addr_env (48 :: 120 :: repeat 65 40)) /\
+  fields (PutHex20 ["a"]) (addr_env (48 :: 120 :: repeat 97 40)) = fields (PutHex20 ["a"]) (addr_env (repeat 97 40)).
+Proof. repeat split; try intros H Z; vm_compute; reflexivity. Qed.
